@@ -9,9 +9,14 @@ RowsB == <<<<2, -1>>, <<-3, 2>>>>
 RowsC == <<<<0, 3>>>>
 Con(cid, kind, rows, static, order, morder, model, res, rev, dict, kappa) ==
     [a |-> "con", c |-> cid, kind |-> kind, rows |-> rows, static |-> static, order |-> order, morder |-> morder,
-     model |-> model, res |-> res, rev |-> rev, dict |-> dict, kappa |-> kappa, lo |-> -1, hi |-> 2]
+     model |-> model, res |-> res, rev |-> rev, dict |-> dict, kappa |-> kappa, lo |-> -1, hi |-> 2, smp |-> 0, mid |-> 0]
+\* a condition on a SHARED sampler object sid (Conditions.SDraws) and, with mid > 0, on a SHARED model object
+ConS(cid, kind, sid, static, morder, model, res, rev, dict, mid) ==
+    [Con(cid, kind, <<>>, static, "xt", morder, model, res, rev, dict, 0) EXCEPT !.smp = sid, !.mid = mid]
 Ev(cid) == [a |-> "ev", c |-> cid, kind |-> "", rows |-> <<>>, static |-> FALSE, order |-> "", morder |-> "", model |-> <<>>,
-            res |-> "", rev |-> FALSE, dict |-> 0, kappa |-> 0, lo |-> 0, hi |-> 0]
+            res |-> "", rev |-> FALSE, dict |-> 0, kappa |-> 0, lo |-> 0, hi |-> 0, smp |-> 0, mid |-> 0]
+\* what Solver.on_train_start does with every condition (static data is moved to the training device)
+Mv == [Ev(0) EXCEPT !.a = "mv"]
 KindsFor(res) == IF res \in {"per", "per0", "per_d"} THEN {"periodic"} ELSE IF res = "vec" THEN {"pinn"} ELSE {"pinn", "mean"}
 Single == {[dicts |-> <<[f |-> 1, g |-> 3]>>,
             ops |-> <<Con(1, kind, SubSeq(RowsA, 1, n), st, ord, mord, <<2, -1, 3>>, res, rev, 1, IF res = "ku_x" THEN 3 ELSE 0), Ev(1), Ev(1)>>] :
@@ -24,11 +29,24 @@ Cands == << Con(1, "pinn", RowsA, TRUE, "xt", "xt", <<2, -1, 3>>, "u_f", FALSE, 
             Con(3, "mean", RowsC, FALSE, "xt", "tx", <<-1, 2, 1>>, "u_f", FALSE, 1, 0),
             Con(4, "periodic", RowsB, TRUE, "xt", "xt", <<1, -2, 1>>, "per", FALSE, 1, 0),
             Con(5, "pinn", RowsB, FALSE, "xt", "xt", <<0, 1, -1>>, "vec", FALSE, 2, 0),
-            Con(6, "periodic", RowsA, FALSE, "xt", "tx", <<3, 1, 0>>, "per", TRUE, 2, 0) >>
-Init == built = {} /\ evs = [i \in 1..6 |-> 0] /\ hist = <<>>
+            Con(6, "periodic", RowsA, FALSE, "xt", "tx", <<3, 1, 0>>, "per", TRUE, 2, 0),
+            \* 7, 8: one static sampler object over a sampler whose draws differ; 9, 10: one non-static such sampler
+            ConS(7, "pinn", 1, TRUE, "xt", <<2, 1, -1>>, "u_f", FALSE, 2, 0),
+            ConS(8, "mean", 1, TRUE, "tx", <<1, -1, 2>>, "echofg", TRUE, 2, 0),
+            ConS(9, "pinn", 2, FALSE, "xt", <<1, 2, 0>>, "u_f", FALSE, 1, 0),
+            ConS(10, "pinn", 2, FALSE, "xt", <<-1, 1, 1>>, "echo", FALSE, 0, 0),
+            \* 11, 12: ONE model object fed by samplers with different variable order
+            [Con(11, "pinn", RowsB, FALSE, "xt", "xt", <<2, -3, 1>>, "echo", FALSE, 0, 0) EXCEPT !.mid = 1],
+            [Con(12, "pinn", RowsA, FALSE, "tx", "xt", <<2, -3, 1>>, "echo", TRUE, 0, 0) EXCEPT !.mid = 1],
+            \* 13, 14: one static sampler object that resamples every second use (make_static(resample_interval=2))
+            ConS(13, "pinn", 3, TRUE, "xt", <<1, 1, 1>>, "u_f", FALSE, 1, 0),
+            ConS(14, "pinn", 3, TRUE, "tx", <<2, 0, -1>>, "echofg", FALSE, 2, 0) >>
+NC == 14
+Init == built = {} /\ evs = [i \in 1..NC |-> 0] /\ hist = <<>>
 Next == /\ Len(hist) < MaxOps
-        /\ \/ \E i \in 1..6 : i \notin built /\ Cardinality(built) < 3 /\ built' = built \cup {i} /\ hist' = Append(hist, Cands[i]) /\ UNCHANGED evs
+        /\ \/ \E i \in 1..NC : i \notin built /\ Cardinality(built) < 3 /\ built' = built \cup {i} /\ hist' = Append(hist, Cands[i]) /\ UNCHANGED evs
            \/ \E i \in built : evs[i] < 2 /\ evs' = [evs EXCEPT ![i] = @ + 1] /\ hist' = Append(hist, Ev(i)) /\ UNCHANGED built
+           \/ built # {} /\ hist # <<>> /\ hist[Len(hist)].a # "mv" /\ hist' = Append(hist, Mv) /\ UNCHANGED <<built, evs>>
 Spec == Init /\ [][Next]_<<built, evs, hist>>
 Scenario == [dicts |-> <<[f |-> 1, g |-> 3], [f |-> 2, g |-> 1]>>, ops |-> hist]
 Emit == (Len(hist) = MaxOps /\ \A i \in built : evs[i] >= 1) => TLCSet(2, TLCGet(2) \cup {Scenario})
